@@ -5,6 +5,7 @@
   suite's ghost-state monitors on the real code (see DESIGN §6 C04).
 -/
 import RaftWal.Generated.WalLogic
+import RaftWal.Proofs.WalDecide
 import RaftWal.Proofs.WalRefine
 import RaftWal.Generated.Conc
 import RaftWal.Proofs.CrashCorollaries
@@ -89,8 +90,10 @@ theorem truncation_atomic_any_crash (d : Crash.Disk) (hq : Crash.QuiescentS d) (
 /-- which segments a truncation keeps, as wal.go decides it (read from the source on every run): a tail truncation keeps
     every segment whose first index is at or below the new last index; a head truncation keeps the tail if it holds the new
     first index and a sealed segment if its last index is at or above it -/
-theorem truncation_scans_from_source :
-    Generated.truncateTailStops = ["seg.BaseIndex <= newMax"] ∧
-    Generated.truncateHeadStops = ["newState.lastIndex() >= newMin", "seg.MaxIndex >= newMin"] := by decide
+theorem truncation_scans_from_source (s : SegS) (stateLast newMin newMax : Nat) :
+    (((¬ s.sealed ∧ stateLast ≥ newMin) ∨ (s.sealed ∧ s.max ≥ newMin)) ↔
+        Generated.truncateHeadStopsAt s.sealed s.base s.min s.max stateLast newMin = true) ∧
+    ((s.base ≤ newMax) ↔ Generated.truncateTailKeeps s.base s.min s.max newMax = true) :=
+  ⟨RaftWal.truncateHead_stop_eq_source s stateLast newMin, RaftWal.truncateTail_keep_eq_source s newMax⟩
 
 end RaftWal.C04
